@@ -226,3 +226,56 @@ def glyf_merge_resolves_composites(nfonts, k):
             nm = g.components[0].glyphName
             conds.append(conj([disj([neg(eq(gids[fi], 0)), nm == want0]), disj([neg(eq(gids[fi], 1)), nm == want1])]))
     ob('every-composite-resolved-in-its-own-font', conj(conds))
+
+
+@kernel('C18', funcs=['merge/layout.py:mergeScripts', 'merge/layout.py:mergeLangSyses', 'merge/layout.py:mergeScriptRecords'],
+        bounds='the same script in 2-3 input fonts, each with language systems from the pattern (shared and distinct tags, listed in non-alphabetical order) and '
+               'SYMBOLIC feature indices: the merged Script lists each language-system tag once, in tag order (consumers binary-search it), and each merged '
+               'language system refers to every feature any input referred to under that tag; default language systems are merged likewise',
+        quick=[dict(tags=[['TRK '], ['AZE ']]), dict(tags=[['TRK ', 'AZE '], ['AZE ']]), dict(tags=[['ZZZ '], ['MMM '], ['AAA ']])],
+        thorough=[dict(tags=t) for t in ([['TRK '], ['AZE ']], [['TRK ', 'AZE '], ['AZE ']], [['ZZZ '], ['MMM '], ['AAA ']], [['B   ', 'A   '], ['C   ', 'A   ']], [[], ['X   ']])])
+def scripts_merge_sorted_and_complete(tags):
+    # at this stage of the merge a LangSys.FeatureIndex holds FeatureRecord objects (indices are re-assigned afterwards)
+    def feat(name, tag):
+        r = ot.FeatureRecord()
+        r.FeatureTag = tag
+        r.Feature = ot.Feature()
+        r.Feature.FeatureParams = None
+        r.Feature.LookupListIndex = [V.int(name, 0, 40)]
+        r.Feature.LookupCount = 1
+        return r
+    scripts, want = [], {}
+    dflt_want = []
+    for fi, ts in enumerate(tags):
+        s = ot.Script()
+        s.DefaultLangSys = ot.LangSys()
+        s.DefaultLangSys.LookupOrder, s.DefaultLangSys.ReqFeatureIndex = None, 0xFFFF
+        s.DefaultLangSys.FeatureIndex = [feat('f%d_dflt' % fi, 'liga')]
+        s.DefaultLangSys.FeatureCount = 1
+        dflt_want += s.DefaultLangSys.FeatureIndex[0].Feature.LookupListIndex
+        s.LangSysRecord = []
+        for ti, t in enumerate(ts):
+            r = ot.LangSysRecord()
+            r.LangSysTag = t
+            r.LangSys = ot.LangSys()
+            r.LangSys.LookupOrder, r.LangSys.ReqFeatureIndex = None, 0xFFFF
+            r.LangSys.FeatureIndex = [feat('f%d_%d_feat' % (fi, ti), 'locl')]
+            r.LangSys.FeatureCount = 1
+            want.setdefault(t, []).extend(r.LangSys.FeatureIndex[0].Feature.LookupListIndex)
+            s.LangSysRecord.append(r)
+        s.LangSysCount = len(ts)
+        scripts.append(s)
+    out = ML.mergeScripts(scripts)
+    got = [r.LangSysTag for r in out.LangSysRecord]
+    ob('langsys-tags-sorted-unique', got == sorted(set(want)))
+    ob('langsys-count', out.LangSysCount == len(got))
+
+    def lookups(ls):
+        return [x for fr in ls.FeatureIndex for x in fr.Feature.LookupListIndex]
+    conds = []
+    for r in out.LangSysRecord:
+        for w in want[r.LangSysTag]:
+            conds.append(disj([eq(w, x) for x in lookups(r.LangSys)]))
+    for w in dflt_want:
+        conds.append(disj([eq(w, x) for x in lookups(out.DefaultLangSys)]))
+    ob('every-input-feature-kept', conj(conds))
